@@ -8629,6 +8629,10 @@ type chanCloseOpt struct {
 	customLockTime fn.Option[uint32]
 
 	customPayer fn.Option[lntypes.ChannelParty]
+
+	// omitRemoteOutput is set if the remote party asked for a closing
+	// transaction that doesn't carry its own output.
+	omitRemoteOutput bool
 }
 
 // ChanCloseOpt is a closure type that cen be used to modify the set of default
@@ -8690,6 +8694,16 @@ func WithCustomPayer(payer lntypes.ChannelParty) ChanCloseOpt {
 	}
 }
 
+// WithOmittedRemoteCloseOutput can be used to leave the output of the remote
+// party out of the closing transaction, no matter its balance. This is used in
+// the RBF flow when the remote party, as the closer, only signed the version
+// of the transaction that pays the closee.
+func WithOmittedRemoteCloseOutput() ChanCloseOpt {
+	return func(opts *chanCloseOpt) {
+		opts.omitRemoteOutput = true
+	}
+}
+
 // CreateCloseProposal is used by both parties in a cooperative channel close
 // workflow to generate proposed close transactions and signatures. This method
 // should only be executed once all pending HTLCs (if any) on the channel have
@@ -8729,6 +8743,11 @@ func (lc *LightningChannel) CreateCloseProposal(proposedFee btcutil.Amount,
 	)
 	if err != nil {
 		return nil, nil, 0, err
+	}
+
+	// A remote party that gave up its output has its funds go to fees.
+	if opts.omitRemoteOutput {
+		theirBalance = 0
 	}
 
 	var closeTxOpts []CloseTxOpt
@@ -8843,6 +8862,11 @@ func (lc *LightningChannel) CompleteCooperativeClose(
 	)
 	if err != nil {
 		return nil, 0, err
+	}
+
+	// A remote party that gave up its output has its funds go to fees.
+	if opts.omitRemoteOutput {
+		theirBalance = 0
 	}
 
 	var closeTxOpts []CloseTxOpt
